@@ -333,8 +333,12 @@ def _run_obs(case):
            "tables": {"pin": _tbl_json(pin), "val": _tbl_json(val),
                       "eq": [[k, _tbl_json(v)] for k, v in sorted(eq.items())]}}
     try:
+        # (the documented multi-device use: the tables placed with a sharding -- here the single CPU device)
+        kw = {}
+        if case["seed"] % 3 == 0:
+            kw["sharding_device"] = jax.sharding.SingleDeviceSharding(jax.devices("cpu")[0])
         g = DataGeneratorObservations(jax.random.PRNGKey(case["seed"]), case["b"], jnp.asarray(pin), jnp.asarray(val),
-                                      {k: jnp.asarray(v) for k, v in eq.items()})
+                                      {k: jnp.asarray(v) for k, v in eq.items()}, **kw)
     except Exception as e:  # noqa: BLE001
         obs["error"], obs["stage"] = core.err_kind(e), "init"
         return obs
